@@ -17,7 +17,8 @@ ID = "C03"
 LEAN_MODULE = "UralModel.Props.C03"
 # the string level (cleaning of the canonical form): Props/C03Control.lean, same namespace
 # quoted mode (the exclusion of (a)/(c1) made independent of the regenerated tables): Props/C03Requote.lean
-EXTRA_IMPORTS = ["UralModel.Props.C03Control", "UralModel.Props.C03Requote"]
+# the four relations on STRINGS with the modelled parser (Reparses discharged): Props/C03String.lean
+EXTRA_IMPORTS = ["UralModel.Props.C03Control", "UralModel.Props.C03Requote", "UralModel.Props.C03String"]
 THEOREMS = [
     "Ural.Props.C03.normalize_factors",
     "Ural.Props.C03.normalize_canonicalize_partial",
@@ -43,6 +44,15 @@ THEOREMS = [
     "Ural.Props.C03.quotedClean_of_quotedDelimFree",
     "Ural.Props.C03.normalize_canonicalize_quoted_partial",
     "Ural.Props.C03.normalize_of_canon_eq_quoted_partial",
+    # Props/C03String.lean: the relations on strings (canonicalizeUrl / normalizeUrlString / fingerprintUrlString,
+    # modelled urlsplit + accessors); the hypothesis Reparses of the component theorems is discharged
+    "Ural.Props.C03.reparses_reparsedOf",
+    "Ural.Props.C03.parse_cleanUrl_grammar",
+    "Ural.Props.C03.normalize_canonical_string",
+    "Ural.Props.C03.normalize_canonicalize_string_partial",
+    "Ural.Props.C03.normalize_of_canon_eq_string_partial",
+    "Ural.Props.C03.fingerprint_canonicalize_string_partial",
+    "Ural.Props.C03.fingerprint_of_normalize_eq_string_partial",
 ]
 TABLE_OBLIGATIONS = [
     "Ural.Props.C03.tables_unsafe_sets",
@@ -91,7 +101,7 @@ EXHAUSTIVE = {
     "thorough": "every single transformation on every URL of the structure sweep and of the length-1 component sweep",
 }
 TRUSTED = [
-    "CPython urlsplit + SplitResult accessors (run, not modelled): in particular that re-parsing the printed canonical URL gives its components back (evaluated per case by the driver line c03_bridge: Reparses(canonComps(parse u), parse(canonicalize_url(u)))) and that the parse of u.lower() is the component-wise lower-casing of the parse of u (line c03_lower)",
+    "CPython urlsplit + SplitResult accessors vs their hand model Py.parseUrl (Py/UrlSplit.lean, Py/UrlAccessors.lean): the theorems of Props/C03.lean start from a Parsed record under the hypothesis Reparses; Props/C03String.lean discharges it for the MODELLED parser (reparses_reparsedOf, from C01's canonicalize_reparse: the printed canonical form parses to reparsedOf) and states (c1), (a), (c2), (b) on strings for it. Not proved: that the hand parser is CPython's (compared on every case of C01/C02/C04-C06: canonicalize_whole / normalize_whole; and the driver lines c03_bridge — Reparses(canonComps(parse u), parse(canonicalize_url(u))) — and c03_lower — the parse of u.lower() is the component-wise lower-casing of the parse of u — evaluate the two bridging facts on what the REAL parser returned, per case)",
     "CPython idna codec (PunyLaws hypothesis; per-run table)",
     "str.lower()/str.strip() outside the model alphabet (DESIGN §4): fingerprint lines are compared only for URLs inside it, the oracle runs on all; that the three functions map the letter case of a non-ASCII host compatibly is the per-run law HostCase (harness/c03_hostcase.py)",
     "the platform_aware branch (facebook / youtube parsers, C19) is not modelled: the harness ships the rewritten URL's components",
@@ -103,31 +113,41 @@ ASSUMPTIONS = [
     "the statement does not claim fp(norm(u)) == fp(u) and it is not tested (normalize_url is not idempotent on index / AMP tails)",
 ]
 UNPROVED = (
-    "PARTIAL. (a),(c1) are proved on parsed components (normParts of ANY re-parse of canonComps(p) = normParts p, whatever "
-    "default protocol canonicalisation assumed) in both modes — quoted=True for QuotedClean inputs, the exclusion of the "
+    "PARTIAL. ON STRINGS (Props/C03String.lean; whole-string models canonicalizeUrl / normalizeUrlString / fingerprintUrlString with the "
+    "modelled urlsplit + accessors; the hypothesis Reparses of the component theorems is DISCHARGED by reparses_reparsedOf + C01's "
+    "canonicalize_reparse; cleaning pass by normalize_cleaning_canonical_partial): normalize_canonicalize_string_partial (c1) "
+    "normalize_url(canonicalize_url(u)) == normalize_url(u), both result forms, and normalize_of_canon_eq_string_partial (a), for every "
+    "string u whose cleaned form is a string of the grammar of Lemmas/NormBridge.lean (scheme prefix of letters / '//' / nothing, userinfo, "
+    "host name or bracketed literal, port text, path EMPTY OR ABSOLUTE, query, fragment) without '%' in the host text, a default protocol of "
+    "1-64 letters, unquoted mode, strip_protocol / strip_authentication / strip_trailing_slash on (defaults), lowercase off, every other "
+    "option free, decoder laws PunyLaws + PunyClean, platform_aware off, and - the class of KF-C03-1 - with infer_redirection on: no redirect hint "
+    "fires on u or on its canonical form (infer u = u, infer r = r; witness on the model that the conclusion fails without it: "
+    "'a.com?ur%6C=http://b.com'). fingerprint_canonicalize_string_partial (c2) and fingerprint_of_normalize_eq_string_partial (b): the same class "
+    "restricted to strings str.lower leaves alone whose parses are LowerInput (the class where (b) is proved). "
+    "ON COMPONENTS (Props/C03.lean, all Parsed records): (a),(c1) are proved (normParts of ANY re-parse of canonComps(p) = normParts p, whatever "
+    "default protocol canonicalisation assumed) in both modes - quoted=True for QuotedClean inputs, the exclusion of the "
     "KF-C02-1 family, which really fails (witness in Props/C03.lean, KF-C03-4); QuotedClean reads the regenerated unsafe sets, so "
     "Props/C03Requote.lean derives it from a FIXED exclusion (QuotedDelimFree: no raw '=' inside a query value, no raw '#' in "
     "the query, '?'/'#' in the path, no control character) through the table obligation unsafe_sets_requote_safe (every byte "
     "of UNSAFE_FOR_PATH / _QUERY_ITEM / _FRAGMENT is in the regenerated safe set of safely_quote, or is the space / '%', or a "
     "delimiter of its component) and restates (c1)/(a) under it (normalize_canonicalize_quoted_partial, "
-    "normalize_of_canon_eq_quoted_partial): a table edit cannot widen the exclusion, it breaks the obligation — for paths that are empty or absolute "
-    "(every URL with an authority), under PunyLaws (PathHyp — three normpath facts — is discharged from "
-    "Lemmas/Normpath.lean); platform_aware and the redirect "
-    "step act on the string before parsing and are outside the theorems. (b) is proved (SortHyp — the query sort "
-    "depends only on the multiset of items — is discharged by C04's sortQsl_eq_of_perm) for the class LowerInput (the URL as parsed, and "
+    "normalize_of_canon_eq_quoted_partial): a table edit cannot widen the exclusion, it breaks the obligation - for paths that are empty or absolute "
+    "(every URL with an authority), under PunyLaws (PathHyp - three normpath facts - is discharged from "
+    "Lemmas/Normpath.lean). (b) is proved (SortHyp - the query sort "
+    "depends only on the multiset of items - is discharged by C04's sortQsl_eq_of_perm) for the class LowerInput (the URL as parsed, and "
     "what its escapes decode to, are lower-case), where fingerprint_url's inner call is normalize_url's result with the "
     "query passed through the gl/hl filter; the full statement is REFUTED on the model (not_fullFingerprintOfNormalizeEq: "
     "'/Index.html' vs '/Index.html/index.html', replayed on the implementation as KF-C03-3). (c2) = (c1)+(b) under the "
-    "union of the hypotheses. NOT proved, explored by the oracle on every run: (b),(c2) on URLs with capital letters "
-    "(that normalize_url's steps other than the index test commute with lower-casing), "
-    "platform_aware=True (D53: KF-C03-2), URLs with a redirect hint (D29: KF-C03-1), the letter case of NON-ASCII hosts "
+    "union of the hypotheses. fingerprint_second_pass and normalize_port_scheme_blind are congruence / unfolding LEMMAS of these proofs (listed for the axiom audit; no clause rests on them alone). "
+    "NOT proved, explored by the oracle on every run: (b),(c2) on URLs with capital letters "
+    "(that normalize_url's steps other than the index test commute with lower-casing; on strings: that the parse of u.lower() is lowerParsed of the parse of u, line c03_lower), "
+    "platform_aware=True (D53: KF-C03-2), URLs with a redirect hint (D29: KF-C03-1), the string level in QUOTED mode and outside the grammar class "
+    "(relative paths, '%' in the host text), the letter case of NON-ASCII hosts "
     "(the model lower-cases ASCII only, with one function in all three schemes; that the real functions' mappings absorb one "
     "another there is the per-run law HostCase.absorb / HostCase.merge over every character on which str.lower / casefold / "
-    "upper().lower() / NFKC differ, plus the 'hostcase' stream), the "
-    "CPython half of the string-level bridging (that urlsplit gives the printed components back and parses u.lower() into the "
-    "lower-cased components: evaluated per case by c03_bridge / c03_lower; an "
-    "unknown scheme with an empty authority, where it used to fail - KF-C03-5 - is fixed: FX-C02-f918741), equality of "
-    "the printed strings vs equality of the components. The CLEANING half of the string level IS proved "
+    "upper().lower() / NFKC differ, plus the 'hostcase' stream), and that the hand model of urlsplit + accessors is CPython's (compared on every case; "
+    "c03_bridge / c03_lower evaluate the bridging facts on the real parser's answers; an "
+    "unknown scheme with an empty authority, where it used to fail - KF-C03-5 - is fixed: FX-C02-f918741). The CLEANING half of the string level "
     "(Props/C03Control.lean, all input strings): from the table obligations control_class_stays_escaped / "
     "strip_class_stays_escaped (every code point CONTROL_CHARS_RE deletes / str.strip removes is kept escaped by the safe "
     "unquoters; regenerated classes, decided on the ranges, lifted to all code points) the canonical form holds no such "
